@@ -83,6 +83,8 @@ var jobTable = map[string]jobSet{
 			// connection of the same NoiseGrpcConn must start clean
 			{Scenario: "e2e/c2s=100/s2c=65535/abandon=10", Budgets: bs(B(0, 0))},
 			{Scenario: "e2e/c2s=100/s2c=65535,100/abandon=40000", Budgets: bs(B(0, 0))},
+			// a stranger's garbage on the rendezvous before the first session
+			{Scenario: "e2e/c2s=100,32768/s2c=65535/badfirst", Budgets: bs(B(0, 0))},
 			// a relay restart (every mailbox lost) at any idle point
 			{Scenario: "e2e/c2s=65535/s2c=1,100/wipe", Budgets: bs(B(0, 1)), Split: 1},
 			// the relay unreachable for 30 s (all calls fail, open streams
@@ -120,6 +122,11 @@ var jobTable = map[string]jobSet{
 			{Scenario: "sess/rounds=2/closer=server", Budgets: bs(B(1, 0)), Filter: "mailbox", Split: 1},
 			{Scenario: "sess/rounds=3/closer=server/v=1", Budgets: bs(B(1, 0)), Filter: "mailbox", Split: 1},
 			{Scenario: "sess/rounds=2/kill", Budgets: bs(B(0, 1)), Split: 1},
+			// somebody who knows the rendezvous sends garbage and hangs up
+			// before the real client connects: what the failed handshake
+			// left unread must not meet the next client
+			{Scenario: "sess/rounds=2/badfirst", Budgets: bs(B(1, 0)), Filter: "mailbox", Split: 1},
+			{Scenario: "sess/rounds=2/v=1/badfirst/kill", Budgets: bs(B(0, 1)), Split: 1},
 			// a relay restart (every mailbox lost): both sides must find
 			// each other again (version 1: the rendezvous does not move)
 			{Scenario: "sess/rounds=2/v=1/wipe", Budgets: bs(B(0, 1)), Split: 1},
